@@ -130,4 +130,12 @@ PROPS = {
                  "findings C10-F1 (parameter named like another annotation's value -> hard error) and C10-F2 (controller-prefix {names} never linked; unaliased @Path outside the route never reported)"],
         assumptions=["no user type embeds error in generated projects (errorEmbedders = [])"],
     ),
+    "C18": dict(
+        streams=[dict(mode="proj", quick=84, thorough=2400, workers=14, driver_workers=4, timeout=1800)],
+        rule=PROJ_RULE + ", printed at indent '' or tab, several controllers per file and methods spread over a.go/b.go/c.go; for every real diagnostic the harness slices the real source by the reported range; checked: file, range inside the file and inside the entity's comment+declaration, start<=end, covered text for value / url-parameter diagnostics, no duplicate in the list nor in the error text, codes+severities = validator model; non-trivial = at least one diagnostic; distinct = distinct project",
+        trusted_base=COMMON_TB + ["token.FileSet positions and gast.MapDocListToCommentBlock are exercised, not modelled (byte columns for the comment start, rune offsets inside the comment)",
+                                  "the harness's own location of each entity's comment+declaration in the printed source (entitySpans)"],
+        partial=["finding C18-F1: an entity block is printed once per error it carries in the command's error text (pinned by test/diagnostics/diagnostics_test.go: `Entities with diagnostics: 4`)"],
+        assumptions=["`covers text equal to that value` is read literally: GetValueRange takes the FIRST occurrence of the value text in the comment"],
+    ),
 }
